@@ -375,7 +375,9 @@ def run_check(pid, mod, tier, seed, replay):
             if err:
                 res.errors.append('%s: driver(%s): %s' % (st.name, st.spec_mode, err)); continue
         verdicts = None
-        if st.judge:
+        if getattr(st, 'py_judge', None):
+            verdicts = [st.py_judge(c, o) for c, o in zip(cases, impl)]
+        elif st.judge:
             verdicts, err = driver(pid, st.judge, [c + ' => ' + o for c, o in zip(cases, impl)])
             if err:
                 res.errors.append('%s: driver(%s): %s' % (st.name, st.judge, err)); continue
@@ -435,7 +437,13 @@ def run_check(pid, mod, tier, seed, replay):
     if res.spec_failures:
         st, c, a, s = min(res.spec_failures, key=lambda d: len(d[1]))
         stream = [x for x in P['streams'] if x.name == st]
-        if stream and ' ; ' in c and stream[0].spec_mode and s.startswith('spec '):
+        if stream and ' ; ' in c and getattr(stream[0], 'py_judge', None) and s.startswith('judge '):
+            try:
+                c, a, s2 = shrink_history(pid, stream[0], c, against='judge')
+                s = 'judge ' + s2
+            except Exception:
+                pass
+        elif stream and ' ; ' in c and stream[0].spec_mode and s.startswith('spec '):
             try:
                 c, a, s2 = shrink_history(pid, stream[0], c, against='spec')
                 s = 'spec ' + s2
@@ -494,6 +502,9 @@ def _fails(pid, stream, case, against):
     a = stream.canon(impl[0])
     if 'PANIC' in a or a.startswith('CRASH') or a == 'TIMEOUT':
         return None          # shrinking must not leave the space of valid programs
+    if against == 'judge':
+        v = stream.py_judge(case, a)
+        return None if v == 'ok' else (a, v)
     mode = stream.mode if against == 'model' else stream.spec_mode
     if mode is None:
         return None
